@@ -82,27 +82,75 @@ def build_repo(san=None):
 
 
 def coq_files():
+    """every .v under coq/ except Props/ (compiled by prove()) and Extract/; proof files included"""
     out = []
-    with open(os.path.join(COQ, "_CoqProject")) as f:
-        for line in f:
+    for root, dirs, files in os.walk(COQ):
+        rel = os.path.relpath(root, COQ)
+        if rel.split(os.sep)[0] in ("Props", "Extract"):
+            continue
+        for f in files:
+            if f.endswith(".v"):
+                out.append(os.path.normpath(os.path.join(rel, f)))
+    return sorted(out)
+
+
+def write_coqproject():
+    txt = "-Q . QV\n-arg -w -arg -notation-overridden,-deprecated-hint-without-locality,-deprecated-syntactic-definition\n" + \
+        "\n".join(coq_files()) + "\n"
+    cp = os.path.join(COQ, "_CoqProject")
+    if not os.path.exists(cp) or open(cp).read() != txt:
+        with open(cp, "w") as f:
+            f.write(txt)
+        return True
+    return False
+
+
+def write_extract_v():
+    """Extract.v is assembled from coq/Extract/parts/*.txt (lines 'modules: ...' / 'functions: ...')"""
+    mods, funs = [], []
+    pdir = os.path.join(COQ, "Extract", "parts")
+    for fn in sorted(os.listdir(pdir)):
+        for line in open(os.path.join(pdir, fn)):
             line = line.strip()
-            if line.endswith(".v"):
-                out.append(line)
-    return out
+            if line.startswith("modules:"):
+                mods += [m for m in line[8:].split() if m not in mods]
+            elif line.startswith("functions:"):
+                funs += [m for m in line[10:].split() if m not in funs]
+    txt = ("(* GENERATED by harness/common.py from coq/Extract/parts/*.txt. Extraction of the executable models and\n"
+           "   specifications. ExtrOcamlBasic only: nat, positive, N, Z stay the inductive types. *)\n"
+           "From Coq Require Import Extraction ExtrOcamlBasic.\nFrom QV Require Import Base.Bytes %s.\n"
+           "Extraction Language OCaml.\nExtraction \"qvmodel.ml\"\n  %s.\n" % (" ".join(mods), "\n  ".join(funs)))
+    p = os.path.join(COQ, "Extract", "Extract.v")
+    if not os.path.exists(p) or open(p).read() != txt:
+        with open(p, "w") as f:
+            f.write(txt)
+
+
+def gen_translated():
+    """run the translators (source -> Gallina) of harness/translate_*.py; each writes coq/Gen/<X>.v"""
+    os.makedirs(os.path.join(COQ, "Gen"), exist_ok=True)
+    hdir = os.path.join(VERIF, "harness")
+    for fn in sorted(os.listdir(hdir)):
+        if fn.startswith("translate_") and fn.endswith(".py"):
+            rc, out = sh([sys.executable, os.path.join(hdir, fn)], timeout=600)
+            if rc != 0:
+                raise InfraError("translator %s failed (the source no longer has the shape it translates)" % fn,
+                                 out.decode("utf-8", "replace")[-3000:])
 
 
 def build_coq(timeout=3000):
-    """make -k of everything in _CoqProject (Props/ files are compiled separately by prove())."""
+    """make -k of everything under coq/ (Props/ files are compiled separately by prove())."""
     with Lock("coq"):
+        gen_translated()
+        changed = write_coqproject()
+        write_extract_v()
         mk = os.path.join(COQ, "Makefile")
-        cp = os.path.join(COQ, "_CoqProject")
-        if not os.path.exists(mk) or os.path.getmtime(mk) < os.path.getmtime(cp):
+        if changed or not os.path.exists(mk):
             sh("coq_makefile -f _CoqProject -o Makefile", cwd=COQ, check=True)
         rc, out = sh("timeout %d make -k -j%d" % (timeout, NPROC), cwd=COQ)
         log = out.decode("utf-8", "replace")
         with open(os.path.join(BUILD, "coq_make.log"), "w") as f:
             f.write(log)
-        failed = re.findall(r"\*\*\* \[Makefile[^\]]*\] Error|Error:|File \"\./([^\"]+)\", line", log)
         return rc == 0, log
 
 
